@@ -12,6 +12,7 @@ import (
 	"time"
 
 	"github.com/failsafe-go/failsafe-go"
+	"github.com/failsafe-go/failsafe-go/bulkhead"
 	"github.com/failsafe-go/failsafe-go/failsafehttp"
 	"github.com/failsafe-go/failsafe-go/hedgepolicy"
 	"github.com/failsafe-go/failsafe-go/retrypolicy"
@@ -21,6 +22,7 @@ import (
 // Prints WITNESS-FAILS when the scenario still fails (the check then prints the KNOWN-FINDING line).
 //
 //	harness witness d9     C18: hedged attempts share one seekable request body
+//	harness witness d12    C08: async Cancel during an outermost bulkhead's permit wait is reported as context.Canceled (fixed)
 //	harness witness d4     C14: hedge attempts share one retry executor (run the race-enabled build; the race report is the failure)
 func init() {
 	commands["witness"] = func(args []string) int {
@@ -33,6 +35,8 @@ func init() {
 			return witnessD9()
 		case "d4":
 			return witnessD4()
+		case "d12":
+			return witnessD12()
 		}
 		return 2
 	}
@@ -108,5 +112,31 @@ func witnessD4() int {
 		}
 	}
 	fmt.Println("witness d4: 400 executions of Hedge(Retry(fn)) with aligned failures done (a race report above is the failure)")
+	return 0
+}
+
+// D12 (fixed): Bulkhead(Retry(fn)) on a full bulkhead with a 1 s max wait; the async execution is cancelled through its
+// ExecutionResult 1 ms into the wait. The cause is ErrExecutionCanceled; the defective code returned the bare context error.
+func witnessD12() int {
+	bad := 0
+	for i := 0; i < 20; i++ {
+		bh := bulkhead.Builder[int](1).WithMaxWaitTime(time.Second).Build()
+		bh.TryAcquirePermit()
+		rp := retrypolicy.Builder[int]().WithMaxRetries(2).Build()
+		r := failsafe.NewExecutor[int](bh, rp).GetAsync(func() (int, error) { return 1, nil })
+		time.Sleep(time.Millisecond)
+		r.Cancel()
+		_, err := r.Get()
+		if !errors.Is(err, failsafe.ErrExecutionCanceled) {
+			bad++
+			if bad == 1 {
+				fmt.Printf("witness d12: async execution cancelled while waiting for a bulkhead permit reported %v, not ErrExecutionCanceled\n", err)
+			}
+		}
+	}
+	fmt.Printf("witness d12: %d of 20 cancelled executions misreported their cause\n", bad)
+	if bad > 0 {
+		fmt.Println("WITNESS-FAILS")
+	}
 	return 0
 }
